@@ -291,6 +291,9 @@ func (p *Program) ReplayConcrete(entry string, ex *Explorer, inputs map[string]u
 	p.Explore(entry, ex)
 }
 
+// ObsLog returns the observation log of the last path.
+func (ex *Explorer) ObsLog() []string { return append([]string{}, ex.obsLog...) }
+
 func (ex *Explorer) FuncList() []string {
 	var out []string
 	for f := range ex.Funcs {
